@@ -100,6 +100,15 @@ def main():
         for adt in F0.d["adts"]:
             if any(v.get("discr_explicit") for v in adt.get("variants", [])):
                 rep.violation("%s:explicit-discriminant:%s" % (prop, adt["name"]), "NAM", "enum %s gives its variants explicit discriminants: the evaluator reads a discriminant as the variant index (UNRECOGNISED)" % adt["name"])
+        # every rule reasons about states reached through new / default / clone / next / reset: that holds only while the fields of
+        # the state structs (and of the bar builder) cannot be written from outside the crate
+        import grammar as _gr
+        for nm_ in list(_gr.state_structs(F0)) + ["DataItemBuilder"]:
+            adt_ = F0.adt_by_short.get(nm_)
+            for v_ in (adt_ or {}).get("variants", []):
+                for fd_ in v_.get("fields", []):
+                    if fd_.get("public") or str(fd_.get("vis", "")).startswith("Public"):
+                        rep.violation("%s:public-state-field:%s.%s" % (prop, nm_, fd_["name"]), "NAM", "field %s.%s is public: client code can put the value into states no constructor or method produces" % (nm_, fd_["name"]))
         # drop glue is code no evaluation executes: a hand-written Drop impl can do anything at scope end
         for imp in F0.impls:
             if imp.get("of_trait") and ir_short(imp.get("trait") or "") == "Drop" and not (imp.get("derive") or {}):
